@@ -68,6 +68,21 @@ CLAIMS = {
         note="Trusted: as C02. Buffer lengths are checked only by the monitors of the harness (blocks are numbers in "
              "the model). Under storage faults 'at most once' is not claimed (C18).",
         design_ref="DESIGN.md section 6 (C09)"),
+    "C10": dict(
+        text="Proved in Lean: the model of get_parity_matrix_row (both crates), LfdbtParity::row and UpdaterMatrix::row "
+             "equals Spec.matrixLine (written from the TS004 pseudo-code) for M <= 16384 (loop level: M <= 2^16) and every "
+             "N with 1+1001N < 2^32 (row_new_eq_spec, row_orig_eq_spec, row_lfdbt_eq_spec, updater_matrix_row); rows "
+             "< 2^M (row_bounds), non-empty for M >= 2, force-full-r rows have exactly M/2 bits (row_fullr_card); "
+             "termination for every M and every u32 seed without force-full-r with an explicit bound of 38 PRBS steps per "
+             "draw (terminates; mod-(2^k+1) argument for powers of two); the TS004 spec itself is pinned to the crate's "
+             "interop vectors by decide (interop_vectors). All three Rust generators are compared with the model "
+             "(exhaustive M,N <= 64 + random up to 16384 in quick; exhaustive 512x128 and every M in thorough) in both "
+             "cfgs, with an independent Rust transcription of matrix_line as oracle.",
+        note="terminates_fullr_partial: termination under force-full-r is proved only under an explicit orbit hypothesis "
+             "(the PRBS23 orbit visits M/2 distinct residues); without it the exhaustive runs are tests. Finding outside "
+             "the property's N range: with force-full-r, cap_n = 1240005543 wraps the seed to 0 (PRBS fixed point) and "
+             "get_parity_matrix_row never returns (fullr_diverges_seed_zero).",
+        design_ref="DESIGN.md section 6 (C10)"),
 }
 
 _TODO = "check not built yet in this session (planned in DESIGN.md section 6); not believed to be outside the technique"
